@@ -1042,6 +1042,33 @@ def c17(ctx):
     return out
 
 
+def rs_strength(ctx):
+    """Reference strength of the handles that keep work alive while no caller holds it: the schedule owns the queues it lists (a Pending queue
+    whose caller dropped every handle must still run), a PipeWaker owns the pipe context (between polls the input stream's waker is the only
+    thing that keeps a pipe alive).  The opposite cases (handles that must be weak) are ORD-C05-weak and ORD-C16 weak-core."""
+    F = ctx.F
+    out = []
+    R = 'RS'
+    table = (('desync::SchedulerCore', 'desync::JobQueue', 'a queue on the schedule is owned by the schedule: if the schedule only held Weak references, a scheduled operation whose caller dropped the returned future and the queue handle would be freed before a pool thread reaches it'),
+             ('desync::PipeWaker', 'desync::PipeContext', 'the waker held by the input stream owns the pipe context: with a Weak reference a pipe that is waiting for input is freed, and the remaining items are never processed'))
+    for adt, target, why in table:
+        a = F.adts.get(adt)
+        key = '%s|owns-%s' % (adt.split('::')[-1], target.split('::')[-1])
+        if not a:
+            out.append(undecided(R, key, '%s not found' % adt))
+            continue
+        tys = [clean_ty(f['ty']) for f in a['variants'][0]['fields']]
+        strong = [t for t in tys if ('alloc::sync::Arc<' + target) in t]
+        weak = [t for t in tys if ('alloc::sync::Weak<' + target) in t]
+        if strong and not weak:
+            out.append(ok(R, key, 'held through Arc<%s>' % target.split('::')[-1]))
+        elif weak:
+            out.append(bad(R, key, '%s refers to %s weakly: %s' % (adt.split('::')[-1], target.split('::')[-1], why)))
+        else:
+            out.append(undecided(R, key, 'no field of %s refers to %s' % (adt, target)))
+    return out
+
+
 def c10_thread(ctx):
     """A pool thread runs every job it is handed: SchedulerThread::run sends the job to the thread's channel on every path, and the thread's
     loop calls each job it receives and then receives again."""
